@@ -22,6 +22,7 @@ Universe == CASE Kind = "ttl1" -> Ttl1
               [] Kind = "s32add" -> S32Vals \X S32Amounts
 
 GInit == IF Kind = "range" THEN InRangeShort(x)
+         ELSE IF Kind = "rangemid" THEN InRangeMid(x)
          ELSE IF Kind = "rangelong" THEN InRangeLong(x)
          ELSE x \in Universe
 GNext == FALSE /\ x' = x
